@@ -204,7 +204,8 @@ def generate(ctx):
 # ---------------------------------------------------------------- generator
 
 IDENT = ['klu', 'umfpack', 'trapezoid', 'backeuler', 'NR', 'andes', 'warn', 'ignore', 'auto', 'manual', 'BusFreq',
-         'foo', 'Bar', 'x1', 'ipc:///tmp/dime2', 'a b', 'None', 'none', 'True', 'False', 'true', 'yes', '']
+         'foo', 'Bar', 'x1', 'ipc:///tmp/dime2', 'a b', 'None', 'none', 'True', 'False', 'true', 'yes', '',
+         'sim #2', 'a ;b', 'x#y', 'p;q']      # ('#' and ';' inside a value are part of the value)
 NUMTXT = ['0', '1', '2', '5', '7', '007', '1_000', '+5', '-3', '10', '25', '3.5', '0.02', '1e3', '1E-4', '1.', '.5',
           '2.0', '1.0', '0.0', 'inf', '-inf', 'nan', 'Infinity', '1e400', '1_0.5', '60', '50', '100', '200.0', '-1']
 ODD = ['1__0', '_1', '1_', '1e', '.', '-', '+', '1.2.3', '0x10', '1,5', '1 0', 'e5', 'in', 'nane', '--1']
